@@ -121,7 +121,35 @@ where P: crate::problems::SingleObjectiveProblem + ObjectiveFunction + 'static, 
     out
 }
 
-pub fn cond<P: Problem>(n: u32) -> Box<dyn Condition<P>> { LessThanN::iterations(n) }
+pub fn cond<P: Problem>(n: u32) -> Box<dyn Condition<P>> {
+    let plain = LessThanN::iterations(n);
+    // with a recorder installed (c16_native_stack_per_pass) every termination condition handed to a template is wrapped in a probe
+    // that notes the height of the population stack each time the loop tests it, i.e. before every pass and after the last one
+    PROBE.with(|p| match &*p.borrow() {
+        None => plain.clone(),
+        Some(rec) => {
+            let id = NEXT_PROBE.with(|k| { let v = k.get(); k.set(v + 1); v });
+            Box::new(PassProbe { inner: plain.clone(), id, records: rec.clone() }) as Box<dyn Condition<P>>
+        }
+    })
+}
+thread_local! {
+    static PROBE: std::cell::RefCell<Option<std::sync::Arc<Mutex<Vec<(usize, usize)>>>>> = std::cell::RefCell::new(None);
+    static NEXT_PROBE: std::cell::Cell<usize> = std::cell::Cell::new(0);
+}
+#[derive(serde::Serialize, derivative::Derivative)]
+#[serde(bound = "")]
+#[derivative(Clone(bound = ""))]
+pub struct PassProbe<P: Problem> { inner: Box<dyn Condition<P>>, id: usize, #[serde(skip)] records: std::sync::Arc<Mutex<Vec<(usize, usize)>>> }
+impl<P: Problem> Condition<P> for PassProbe<P> {
+    fn init(&self, problem: &P, state: &mut State<P>) -> crate::ExecResult<()> { self.inner.init(problem, state) }
+    fn require(&self, problem: &P, state_req: &crate::state::StateReq<P>) -> crate::ExecResult<()> { self.inner.require(problem, state_req) }
+    fn evaluate(&self, problem: &P, state: &mut State<P>) -> crate::ExecResult<bool> {
+        let h = state.populations().len();
+        self.records.lock().unwrap().push((self.id, h));
+        self.inner.evaluate(problem, state)
+    }
+}
 
 
 pub fn real_templates(n: u32) -> Vec<(&'static str, Configuration<Sphere>)> {
@@ -424,4 +452,44 @@ pub fn c16_native_parameter_corners() {
     }
     if failed > 0 { panic!("a shipped template does not run to completion with a balanced stack at the edge of its parameter range") }
     println!("c16_native_parameter_corners: {} runs checked", runs);
+}
+
+/// "Each loop pass ends with the population stack at the height it had before the pass": the termination condition handed to
+/// each template is wrapped in a probe (`PassProbe`) that records the stack height every time the loop tests it; all heights
+/// one probe sees during a run must be equal.
+// @native-harness
+pub fn c16_native_stack_per_pass() {
+    let rec = std::sync::Arc::new(Mutex::new(Vec::new()));
+    PROBE.with(|p| *p.borrow_mut() = Some(rec.clone()));
+    let mut failed: Vec<String> = Vec::new();
+    let mut runs = 0u64;
+    let mut observed = 0usize;
+    let mut analyse = |name: &str, seed: u64, ok: bool, failed: &mut Vec<String>| {
+        let records: Vec<(usize, usize)> = std::mem::take(&mut *rec.lock().unwrap());
+        if !ok { return }   // (completion is c16_native_whole_runs' clause)
+        if records.is_empty() { eprintln!("COUNTEREXAMPLE template={name} clause=probe-reached seed={seed}: the termination condition was never evaluated"); failed.push(name.to_string()); return }
+        let mut ids: Vec<usize> = records.iter().map(|r| r.0).collect();
+        ids.sort(); ids.dedup();
+        for id in ids {
+            let hs: Vec<usize> = records.iter().filter(|r| r.0 == id).map(|r| r.1).collect();
+            if hs.iter().any(|h| *h != hs[0]) && !failed.iter().any(|f| f == name) {
+                eprintln!("COUNTEREXAMPLE template={name} clause=stack-balanced-per-pass seed={seed}: stack heights seen by one loop at its successive tests: {hs:?}");
+                failed.push(name.to_string());
+            }
+        }
+        observed += records.len();
+    };
+    for seed in 0..3u64 {
+        let n = 6;
+        let sp = Sphere { returned: Mutex::new(Vec::new()), alt: false };
+        for (name, c) in real_templates(n) { let r = run_one(name, seed, n, &sp, &sp.returned, c, &|s: &Vec<f64>| sphere(s)); analyse(name, seed, r.error.is_none(), &mut failed); runs += 1; }
+        for (name, c, _) in corner_templates(n) { let r = run_one("corner", seed, n, &sp, &sp.returned, c, &|s: &Vec<f64>| sphere(s)); analyse(&name, seed, r.error.is_none(), &mut failed); runs += 1; }
+        let pp = PermCost { returned: Mutex::new(Vec::new()) };
+        for (name, c) in perm_templates(n) { let r = run_one(name, seed, n, &pp, &pp.returned, c, &|s: &Vec<usize>| perm_cost(s)); analyse(name, seed, r.error.is_none(), &mut failed); runs += 1; }
+        let bp = OneMax { returned: Mutex::new(Vec::new()) };
+        let r = run_one("binary_ga", seed, n, &bp, &bp.returned, binary_template(n), &|s: &Vec<bool>| one_max(s)); analyse("binary_ga", seed, r.error.is_none(), &mut failed); runs += 1;
+    }
+    PROBE.with(|p| *p.borrow_mut() = None);
+    if !failed.is_empty() { panic!("a loop pass of a shipped template does not end with the population stack at the height it had before the pass") }
+    println!("c16_native_stack_per_pass: {} runs, {} loop tests observed", runs, observed);
 }
